@@ -177,3 +177,4 @@ func vAliasBytes(a, b []byte) bool {
 // vEncodeFormats: the format codes handed to the type map's Encode so far
 // (observable only in the encoding; natively the real pgx codecs run).
 func vEncodeFormats() []int { return nil }
+func vAllocLimits(bytes, count int) {}
